@@ -140,6 +140,142 @@ class _Shape:
         self.shape = (n, 1)
 
 
+# ------------------------------------------------------------------ layer 1b: the real predict, tiny
+
+
+def run_predict(cfg):
+    """ConstraintKMeans.predict itself (not only the association it delegates to): balanced -> sizes;
+    not balanced -> exactly what KMeans.predict (nearest centre) answers.  KMeans.predict is the stub
+    `first argmin of the symbolic distance matrix`."""
+    m = loader.load("mlmodel._kmeans_constraint_")
+    kc = loader.load("mlmodel.kmeans_constraint")
+    n, k, strategy = cfg["n"], cfg["k"], cfg["strategy"]
+
+    def h(e):
+        D = e.reals("d", k, n)
+        for i in range(k):
+            for j in range(n):
+                e.add_definition(D[i, j].t >= 0)
+        rnd = _Rnd(e)
+
+        class KM:
+            @staticmethod
+            def predict(self, X):
+                out = []
+                for j in range(n):
+                    best = 0
+                    for c in range(1, k):
+                        if D[c, j] < D[best, j]:
+                            best = c
+                    out.append(best)
+                return numpy.array(out, dtype=numpy.int32)
+
+        est = kc.ConstraintKMeans(n_clusters=k, strategy=strategy, balanced_predictions=cfg["balanced"], random_state=e.realize(e.int("seeded", 0, 1)) or None)
+        est.weights_ = None
+        est.cluster_centers_ = numpy.zeros((k, 1))
+        X = numpy.empty((n, 1), dtype=object)
+        near = KM.predict(est, X)
+        with harness.patched(m, numpy=_NP(rnd), euclidean_distances=lambda *a, **kw: D.copy(), row_norms=lambda *a, **kw: None), harness.patched(kc, numpy=_NP(rnd), KMeans=KM):
+            labels = est.predict(X)
+        if cfg["balanced"]:
+            e.prove(_sizes_ok(labels, n, k), f"predict(balanced)/sizes/{strategy}", detail=[int(v) for v in labels])
+        else:
+            e.prove([int(v) for v in labels] == [int(v) for v in near], "predict(not-balanced)/nearest-centre", detail=[int(v) for v in labels])
+
+    eng = sx.Engine(name=f"C07{cfg}", max_paths=400000)
+    eng.abstract_squares = True
+    eng.abstract_division = True
+
+    def on_exc(e, exc):
+        e.prove(False, f"predict/raises/{strategy}", detail=f"{type(exc).__name__}: {exc}")
+
+    eng.explore(h, on_exception=on_exc)
+    viol = []
+    for c in eng.cex[:1]:
+        ok, obs = replay(cfg, c.inputs, c.label)
+        viol.append(harness.violation(c.label, f"{c.label}/n%k={n % k}", cfg, c.inputs, obs, ok))
+    return dict(stats=eng.stats.as_dict(), violations=viol)
+
+
+# ------------------------------------------------------------------ layer 2a: the processing order
+
+
+class _Fixed:
+    def __init__(self, vals):
+        self.vals = vals
+
+    def rand(self, n):
+        return numpy.array(self.vals[:n], dtype=float)
+
+
+def run_rindex(cfg):
+    """_randomize_index(sorted_index, mini): whatever the ties and the draws, the processing order stays a
+    permutation of the points (the inductive step of `distance` takes an arbitrary order of ALL points)"""
+    m = loader.load("mlmodel._kmeans_constraint_")
+    n = cfg["n"]
+
+    def h(e):
+        w = e.reals("w", n)
+        for i in range(n):
+            e.add_definition(w[i].t >= 0)
+        pi = [e.int(f"idx{i}", 0, n - 1) for i in range(n)]
+        e.add_definition(z3.Distinct(*[p.t for p in pi]))
+        idx = [e.realize(p) for p in pi]
+        for a, b in zip(idx, idx[1:]):
+            e.assume(w[a] <= w[b])  # the caller passes argsort(weights)
+        index = numpy.array(idx, dtype=numpy.int64)
+        rnd = _Rnd(e)
+        with harness.patched(m, numpy=_NP(rnd)):
+            m._randomize_index(index, w.copy(), state=rnd if cfg["state"] else None)
+        e.prove(sorted(int(v) for v in index) == list(range(n)), "processing-order/every-point-exactly-once", detail=[int(v) for v in index])
+
+    eng = sx.Engine(name=f"C07{cfg}")
+    eng.abstract_division = True
+    eng.explore(h, on_exception=lambda e, exc: e.prove(False, "processing-order/raises", detail=f"{type(exc).__name__}: {exc}"))
+    viol = []
+    for c in eng.cex[:1]:
+        ok, obs = replay_rindex(cfg, c.inputs, c.label)
+        viol.append(harness.violation(c.label, c.label, cfg, c.inputs, obs, ok))
+    return dict(stats=eng.stats.as_dict(), violations=viol)
+
+
+def replay_rindex(cfg, inputs, label):
+    """(1) the real function on the model's values; (2) the consequence through the public API: data sets with
+    duplicated points (exact ties), n mod k != 0, several seeds -- a violation is only reported when (2) shows one"""
+    m = loader.load("mlmodel._kmeans_constraint_")
+    kc = loader.load("mlmodel.kmeans_constraint")
+    n = cfg["n"]
+    try:
+        w = numpy.array([float(inputs.get(f"w_{i}", 0)) for i in range(n)])
+        index = numpy.array([int(inputs.get(f"idx{i}", i)) for i in range(n)], dtype=numpy.int64)
+        m._randomize_index(index, w.copy(), state=_Fixed([float(inputs.get(f"rand0_{i}", 0)) for i in range(n)]))
+        unit = dict(order_after=index.tolist(), weights=w.tolist())
+        if sorted(index.tolist()) == list(range(n)):
+            return False, dict(unit="the real function keeps a permutation on the model's values", **unit)
+    except Exception as ex:
+        unit = dict(raised=f"{type(ex).__name__}: {str(ex)[:160]}")
+    tried = 0
+    for k in (2, 3, 4):
+        for nn in (2 * k + 1, 3 * k + 1, 2 * k + 2, 3 * k + 2):
+            if nn % k == 0:
+                continue
+            for seed in range(30):
+                rng = numpy.random.RandomState(seed)
+                base = rng.randn((nn + 1) // 2, 2)
+                X = numpy.vstack([base, base])[:nn]  # duplicated points: exact distance ties
+                assert len(X) == nn
+                for bp in (False, True):
+                    tried += 1
+                    try:
+                        est = kc.ConstraintKMeans(n_clusters=k, strategy="distance", random_state=seed, balanced_predictions=bp).fit(X)
+                        lab = est.predict(X) if bp else est.labels_
+                    except Exception as ex:
+                        return True, dict(unit=unit, n=nn, k=k, seed=seed, raised=f"{type(ex).__name__}: {str(ex)[:160]}")
+                    if not _sizes_ok(lab, nn, k):
+                        return True, dict(unit=unit, n=nn, k=k, seed=seed, balanced_predict=bp, sizes=numpy.bincount(lab, minlength=k).tolist(), data=f"RandomState({seed}).randn({(nn + 1) // 2},2) stacked twice, first {nn} rows")
+    return False, dict(unit=unit, api=f"no size violation on {tried} real fits with duplicated points")
+
+
 # ------------------------------------------------------------------ layer 2: distance, inductive step
 
 
@@ -434,17 +570,30 @@ def replay(cfg, inputs, label):
                 if est.n_iter_ > est.max_iter:
                     return True, dict(n_iter_=int(est.n_iter_), max_iter=int(est.max_iter))
                 try:
+                    near = est.predict(X)
+                    if cfg.get("kind") == "predict" and not cfg.get("balanced"):
+                        ref = numpy.argmin(((X[:, None, :] - est.cluster_centers_[None, :, :]) ** 2).sum(axis=2), axis=1)
+                        if not numpy.array_equal(near, ref):
+                            return True, dict(n=n, k=k, seed=seed, predict=near.tolist(), nearest_centre=ref.tolist())
                     est.balanced_predictions = True
-                    pl = est.predict(X)
-                    if not _sizes_ok(pl, n, k):
-                        return True, dict(n=n, k=k, strategy=strategy + " (balanced predict)", seed=seed, sizes=numpy.bincount(pl, minlength=k).tolist())
+                    batches = [X]
+                    d0 = ((X - est.cluster_centers_[0]) ** 2).sum(axis=1)
+                    for c in range(k):
+                        dc = ((X - est.cluster_centers_[c]) ** 2).sum(axis=1)
+                        for size in (k, k + 1, 2 * k):
+                            if size <= n:
+                                batches.append(X[numpy.argsort(dc)[:size]])  # a batch crowded around one centre
+                    for B in batches:
+                        pl = est.predict(B)
+                        if not _sizes_ok(pl, len(B), k):
+                            return True, dict(n=n, k=k, strategy=strategy + " (balanced predict)", seed=seed, batch=B.round(3).tolist()[:8], sizes=numpy.bincount(pl, minlength=k).tolist())
                 except AssertionError:
                     pass
     return False, f"no size violation on {tried} real fits"
 
 
 def run_config(cfg):
-    return dict(e2e=run_e2e, dstep=run_distance_step, gquota=run_gain_quota, gstep=run_gain_step)[cfg["kind"]](cfg)
+    return dict(e2e=run_e2e, predict=run_predict, rindex=run_rindex, dstep=run_distance_step, gquota=run_gain_quota, gstep=run_gain_step)[cfg["kind"]](cfg)
 
 
 def configs(tier):
@@ -455,6 +604,12 @@ def configs(tier):
     if tier != "quick":
         for strategy in ("distance", "distance_p"):
             out.append(dict(kind="e2e", n=3, k=2, strategy=strategy))
+    for strategy in ("distance", "gain"):
+        out.append(dict(kind="predict", n=2, k=2, strategy=strategy, balanced=True))
+    out.append(dict(kind="predict", n=3, k=2, strategy="distance", balanced=False))
+    for nn in (3, 4) if tier == "quick" else (3, 4, 5):
+        out.append(dict(kind="rindex", n=nn, state=True))
+    out.append(dict(kind="rindex", n=3, state=False))
     for k in (2, 3) if tier == "quick" else (1, 2, 3, 4):
         out.append(dict(kind="dstep", k=k))
     if tier == "quick":
@@ -473,9 +628,10 @@ def configs(tier):
 
 def run(ctx, rep):
     rep.engine = "SX (end to end, tiny) + SX on AST slices of the real functions (inductive steps, all n)"
-    rep.add_functions("mlmodel._kmeans_constraint_", ["_constraint_association", "_constraint_association_distance", "_constraint_association_gain", "_switch_clusters", "_randomize_index", "linearize_matrix", "_compute_strategy_coefficient"])
+    rep.add_functions("mlmodel._kmeans_constraint_", ["constraint_predictions", "_constraint_association", "_constraint_association_distance", "_constraint_association_gain", "_switch_clusters", "_randomize_index", "linearize_matrix", "_compute_strategy_coefficient"])
+    rep.add_functions("mlmodel.kmeans_constraint", ["ConstraintKMeans.predict"])
     cfgs = configs(ctx.tier)
-    rep.bounds = dict(end_to_end=sorted(set((c["n"], c["k"]) for c in cfgs if c["kind"] == "e2e")), inductive_steps="k <= 3 (quick) / 4 (thorough); n, limit, counters symbolic and UNBOUNDED", draws="every rand / randint / permutation outcome (symbolic)")
+    rep.bounds = dict(processing_order="_randomize_index: n <= 4 (quick) / 5 (thorough) points, every starting order, tie pattern and draw", end_to_end=sorted(set((c["n"], c["k"]) for c in cfgs if c["kind"] == "e2e")), inductive_steps="k <= 3 (quick) / 4 (thorough); n, limit, counters symbolic and UNBOUNDED", draws="every rand / randint / permutation outcome (symbolic)")
     rep.assumptions = [
         "end-to-end layer: x**2 and a/b on symbolic reals are over-approximated (fresh order-isomorphic squares; quotients with sign/range facts only) so that every query is linear -- sound for proving, counterexamples replayed", "euclidean_distances replaced by an arbitrary non-negative symbolic matrix (over-approximation: the size property must not depend on geometry); counterexamples are replayed with real points through ConstraintKMeans.fit/predict",
         "inductive steps run AST slices of the current source (vf/slicer.py; a marker that no longer matches is an engine error); the invariant of the `distance` loop is stated in this file's docstring",
